@@ -44,7 +44,7 @@ ASSUMPTIONS = [
     "delpot = cutoff/(ngrid-4) is undefined for 4 rows)",
     "a cutoff that is not a whole multiple of the step is not constrained by the property and is not generated",
 ]
-REQUIRED = {"r:cutoff_dr": 40, "r:nr_dr": 15, "r:nr_cutoff": 15, "rho:cutoff_dr": 15, "reject": 30, "fine_steps": 15, "reject:all_three": 4, "reject:step_alone": 4, "reject:nr<=0": 4, "reject:dr<=0": 4, "reject:cutoff<=0": 4, "reject:nr_not_int": 4, "reject:dr_not_number": 4, "reject:all_three_one_zero": 4, "reject:not_finite": 4, "reject:single_row": 4, "written": 60,
+REQUIRED = {"variables_named_like_options:not_given_in_tabulation": 5, "r:cutoff_dr": 40, "r:nr_dr": 15, "r:nr_cutoff": 15, "rho:cutoff_dr": 15, "reject": 30, "fine_steps": 15, "reject:all_three": 4, "reject:step_alone": 4, "reject:nr<=0": 4, "reject:dr<=0": 4, "reject:cutoff<=0": 4, "reject:nr_not_int": 4, "reject:dr_not_number": 4, "reject:all_three_one_zero": 4, "reject:not_finite": 4, "reject:single_row": 4, "written": 60,
             "r:default": 10}
 TARGETS = ["LAMMPS", "DLPOLY", "GULP", "excel", "setfl", "setfl_fs", "DL_POLY_EAM", "DL_POLY_EAM_fs",
            "excel_eam", "excel_eam_fs", "eam_adp"]
@@ -86,7 +86,7 @@ def _axis(draw, max_rows, why=None, fine=False):
 
 
 @st.composite
-def _case(draw, max_rows, why=None, targets=None, fine=False):
+def _case(draw, max_rows, why=None, targets=None, fine=False, variables=False):
     target = draw(st.sampled_from(targets or TARGETS))
     if fine:
         return {"r": draw(_axis(max_rows, None, True)), "rho": draw(_axis(max_rows, None, True)), "target": target, "fine": True}
@@ -95,7 +95,13 @@ def _case(draw, max_rows, why=None, targets=None, fine=False):
         on_rho = target in EAM and draw(st.booleans())
         return {"r": draw(_axis(max_rows, None if on_rho else why)), "rho": draw(_axis(max_rows, why if on_rho else None)),
                 "target": target}
-    return {"r": draw(_axis(max_rows)), "rho": draw(_axis(max_rows)), "target": target}
+    c = {"r": draw(_axis(max_rows)), "rho": draw(_axis(max_rows)), "target": target}
+    if variables:
+        # a [Variables] section whose entries happen to be NAMED like [Tabulation] options (a user's 'cutoff' used
+        # in range definitions, say): they are not [Tabulation] items and fix nothing about the grid
+        names = draw(st.lists(st.sampled_from(["nr", "dr", "cutoff", "nrho", "drho", "cutoff_rho", "rmax"]), min_size=1, max_size=3, unique=True))
+        c["variables"] = [[n, draw(st.sampled_from(["4.0", "6", "0.25", "12.5", "3"]))] for n in names]
+    return c
 
 
 def strategy(tier):
@@ -106,6 +112,7 @@ def strata(tier):
     # GULP and the spreadsheets walk the grid with their own row iterators (the others take nr and a step)
     return [("small", _case(600), 7), ("large", _case(20000), 3),
             ("row_iterators", _case(600, None, ["GULP", "excel", "excel_eam", "excel_eam_fs"]), 3),
+            ("variables_named_like_options", _case(600, variables=True), 1.5),
             ("fine_steps", _case(60, None, ["GULP", "excel", "setfl", "setfl_fs", "excel_eam", "eam_adp"], True), 2)] + [("reject:" + w, _case(60, w), 0.25) for w in WHYS]
 
 
@@ -169,6 +176,8 @@ def model_text(case):
         erho, wrho = _entries("rho", case["rho"])
         tab += erho
     secs = [("Tabulation", tab)]
+    if case.get("variables"):
+        secs.insert(len(case["variables"]) % 2, ("Variables", [(n, v) for n, v in case["variables"]]))
     if target in EAM:
         secs.append(("Pair", [("Al-Al", "as.constant 1.5"), ("Al-Cu", "as.polynomial 0 1")]))
         secs.append(("EAM-Embed", [("Al", "as.polynomial 0 2"), ("Cu", "as.constant 3")]))
@@ -291,6 +300,9 @@ def check_case(case):
     rejecting = wr == "reject" or wrho == "reject"
     if case.get("fine"):
         cls.append("fine_steps")
+    if case.get("variables"):
+        given = set(n for n, _ in _entries("r", case["r"])[0]) | (set(n for n, _ in _entries("rho", case["rho"])[0]) if target in EAM else set())
+        cls.append("variables_named_like_options" + (":not_given_in_tabulation" if any(n not in given and n != "rmax" for n, _ in case["variables"]) else ""))
     if rejecting:
         cls.append("reject")
         for axn in ("r", "rho"):
